@@ -158,7 +158,7 @@ def check_map(reck, circuit, seed, res, orig_map, busy):
 
 
 FAMILIES = ["haar", "identity", "permutation", "phased_permutation", "block", "near_permutation", "dft", "orthogonal",
-            "permuted_block", "minus_identity"]
+            "permuted_block", "minus_identity", "phases_just_below_whole_turn"]
 
 
 def make_unitary(rng, fam, n):
@@ -194,6 +194,17 @@ def make_unitary(rng, fam, n):
     if fam == "dft":
         w = np.exp(2j * math.pi / n)
         return np.array([[w ** (i * j) for j in range(n)] for i in range(n)]) / math.sqrt(n)
+    if fam == "phases_just_below_whole_turn":
+        # programmed phases a little below 2 pi (2e-9 ... 1e-4 below): diagonal phases -delta, alone or wrapped round a mesh
+        deltas = rng.choice([1e-4, 3e-5, 1e-5, 1e-6, 1e-7, 2e-9, 0.0], size=n)
+        d1 = np.diag(np.exp(-1j * deltas))
+        kind = rng.random()
+        if kind < 0.4:
+            return d1.astype(complex)
+        if kind < 0.7:
+            return d1 @ np.eye(n, dtype=complex)[rng.permutation(n)]
+        d2 = np.diag(np.exp(-1j * rng.choice([1e-4, 3e-5, 1e-6, 0.0], size=n)))
+        return d1 @ haar(rng, n) @ d2
     if fam == "orthogonal":
         q, r = np.linalg.qr(rng.normal(size=(n, n)))
         return (q * np.sign(np.diag(r))).astype(complex)
